@@ -60,12 +60,20 @@ F = {
    what="a failing try_lock/try_read/try_write is explored only when the holder's critical section contains a scheduling point: neither the release of a lock nor a cell access is a branch point, so a section without atomics/locks inside is one indivisible step and the 'lock is held' state is never visible to a concurrent try (rt/mutex.rs, rt/rwlock.rs; same family as F7/F19/F24). (That a thread pending on a try was BLOCKED by the acquisition - false deadlocks - was repaired in b682426.)",
    entries=[(p, "missing", "cfg m=1 | T0: spawn 1; trylock 0; ifeq 1 v:1 1; unlock 0; join 1 | T1: lock 0; unlock 0",
              "ok 0:0=- 0:1=v:0 0:4=- 1:0=- 1:1=-") for p in ("C01", "C07")] +
+           [("C15", "bound-not-subset", "cfg m=2 c=1 | T0: spawn 1; spawn 2; lock 1; unlock 1; join 1; join 2 | T1: lock 0; lock 1; unlock 1; unlock 0 | T2: trylock 0; ifeq 1 v:1 2; crd 0; unlock 0",
+             "ok 0:0=- 0:1=- 0:2=- 0:3=- 0:4=- 0:5=- 1:0=- 1:1=- 1:2=- 1:3=- 2:0=v:0")] +
            [("C19", "controls-not-subset", "cfg m=2 c=1 | T0: spawn 1; lock 0; lock 1; unlock 1; unlock 0; skip; lock 0; lock 1; unlock 1; unlock 0; join 1 | T1: trylock 0; ifeq 1 v:1 2; crd 0; unlock 0; lock 0; cwr 0 1; unlock 0",
              "v:0", None, "cfg m=2 c=1 | T0: spawn 1; lock 0; lock 1; unlock 1; unlock 0; lock 0; lock 1; unlock 1; unlock 0; join 1 | T1: trylock 0; ifeq 1 v:1 2; crd 0; unlock 0; lock 0; cwr 0 1; unlock 0")]),
  "F10": dict(cls="arc-inspect-not-dependent",
    what="strong_count/get_mut still miss some orders with a concurrent drop: the Arc keeps ONE last-inspection slot, so a thread's own strong_count overwrites another thread's, and its following drop is compared with its own inspection only (rt/arc.rs last_ref_inspect; the same single-slot weakness as F1). (That a decrement did not depend on inspections at all was repaired in d0747ef.)",
    entries=[(p, "missing", "cfg  | T0: anew 0; aclone 0 1; spawn 1; acount 0; adrop 0; join 1 | T1: acount 1; adrop 1",
-             "ok 0:0=- 0:1=- 0:2=- 0:3=v:1 0:4=v:1 0:5=- 1:0=v:2 1:1=v:0") for p in ("C01", "C11")]),
+             "ok 0:0=- 0:1=- 0:2=- 0:3=v:1 0:4=v:1 0:5=- 1:0=v:2 1:1=v:0") for p in ("C01", "C11")] +
+           [("C15", "bound-not-subset", "cfg  | T0: anew 0; aclone 0 1; aclone 0 2; spawn 1; spawn 2; adrop 0; join 1; join 2 | T1: acount 1; adrop 1 | T2: acount 2; adrop 2",
+             "ok 0:0=- 0:1=- 0:2=- 0:3=- 0:4=- 0:5=v:0 0:6=- 0:7=- 1:0=v:1 1:1=v:1 2:0=v:2 2:1=v:0")]),
+ "F25": dict(cls="atomic-mo-assertion",
+   what="loom's own assertion `assert_ne!(mo_i, mo_j)` in match_load_to_stores / match_rmw_to_stores (marked 'TODO: this sometimes fails' in the source) fires on a valid program: two stores of one atomic end up with equal modification-order clocks; the model run fails although no execution of the program fails (rt/atomic.rs)",
+   entries=[(p, "badverdict", "cfg x=1 | T0: spawn 1; spawn 2; for 0 4 ar; ld 0 sc; join 1; join 2 | T1: st 0 1 sc; ld 0 sc | T2: st 0 2 rel; fupd 0 add:1 rel acq",
+             "internal:10", o) for p, o in (("C03", "rc11-doc"), ("C02", "rc11-strong"), ("C01", None))]),
  "F11": dict(cls="unstarted-closure-dropped-outside",
    what="the process aborts instead of unwinding to the caller of loom::model when an iteration fails while a spawned thread that has not started yet still owns a loom handle in its closure (`let a2 = a.clone(); thread::spawn(move || use(a2)); assert!(false)`): the closure is dropped with the scheduler's coroutine, outside the execution context (rt/scheduler.rs)",
    entries=[("C06", "abort", "cfg unwind=1 | T0: anew 0; aclone 0 1; spawnown 1 1; panic | T1: adrop 1", "abort")]),
